@@ -8,6 +8,7 @@ From M Require ParamList.
 From M Require ArrayRoundTrip.
 From M Require ArrayReaders.
 From M Require EndToEnd.
+From M Require ParamBounds.
 From M Require ArrayRoundTrip.
 From M Require DecSpec.
 From M Require HdrSpec.
@@ -223,4 +224,17 @@ Theorem C05_message_reads_array :
 Proof. exact (@EndToEnd.message_reads_array). Qed.
 End T_message_reads_array.
 Definition C05_message_reads_array := @T_message_reads_array.C05_message_reads_array.
+
+Module T_parameter_window. Import ParamBounds. Local Open Scope bool_scope. Local Open Scope Z_scope.
+Import ParserModel. Local Open Scope Z_scope.
+Theorem C05_parameter_window :
+  forall c m,
+  window_ok c ->
+  window_ok (fst (fst (parameter c m))) /\
+  (snd (fst (parameter c m)) = true ->
+   let t := snd (parameter c m) in
+   pd_off c <= LexModel.ptr t /\ 0 <= LexModel.len t /\ LexModel.ptr t + LexModel.len t <= pd_off c + pd_len c).
+Proof. exact (@ParamBounds.parameter_window). Qed.
+End T_parameter_window.
+Definition C05_parameter_window := @T_parameter_window.C05_parameter_window.
 
